@@ -33,6 +33,10 @@ pub proof fn lemma_sneg_add<C: Ciphersuite>(a: crate::traits::Scalar<C>, b: crat
     FF::<C>::ax_add_neg(s);
     lemma_add_cancel::<AL<C>>(s, sadd::<C>(na, nb), FF::<C>::s_neg(s));
 }
+// -0 == 0  (so a non-zero scalar has a non-zero negative: -(-a) == a)
+pub proof fn lemma_sneg_zero()
+    ensures sc_neg(sc_zero()) == sc_zero()
+{ FF::<TR>::ax_add_neg(sc_zero()); lemma_zero_add::<AL<TR>>(sc_neg(sc_zero())); }
 pub proof fn lemma_eneg_add<C: Ciphersuite>(a: Element<C>, b: Element<C>)
     ensures GG::<C>::e_neg(eadd::<C>(a, b)) == eadd::<C>(GG::<C>::e_neg(a), GG::<C>::e_neg(b))
 {
